@@ -283,7 +283,7 @@ static RunRes runIsolated(const std::string& reader, const std::string& data, bo
         if (c == 78) { R.cls = "crash"; R.detail = "stack-overflow" + phase + " -"; return R; }
         if (c == 79 || c == 80) { R.cls = "crash"; R.detail = (c == 79 ? "segv" : "sigbus") + phase + " -"; return R; }
         std::string rep = readFile(g_errFile), frame; std::string cls = asanClass(rep, frame);
-        if (cls == "allocation-size-too-big" || cls == "out-of-memory" || cls == "calloc-overflow") { R.cls = "oom"; R.detail = phase; return R; }
+        if (cls == "allocation-size-too-big" || cls == "out-of-memory" || cls == "calloc-overflow" || cls == "allocator" || cls == "requested") { R.cls = "oom"; R.detail = phase; return R; }
         if (cls == "leak") { R.cls = "leak"; R.detail = rep.substr(0, 3000); return R; }
         R.cls = "crash"; R.detail = (cls == "unknown" ? "exit-" + std::to_string(c) : cls) + phase + " " + frame; R.dump = rep.substr(0, 4000); return R;
     }
@@ -622,7 +622,7 @@ struct Stream {
         if (res.cls == "ok") { std::istringstream is(res.dump); std::string srid, tag; is >> srid >> tag; out.count("accepted_type_" + tag);
             if (res.post.find('-') != std::string::npos) out.count("exercise_op_returned_error"); if (res.post.find("valid0") != std::string::npos) out.count("accepted_but_invalid"); }
         size_t sz = data.size(); const char* b = sz <= 256 ? "len_le_256" : sz <= 4096 ? "len_le_4k" : sz <= 65536 ? "len_le_64k" : "len_le_1m"; out.count(b);
-        if (sz >= 4096) { track("rss_kb_per_kb", (double) res.rssGrowKB / ((double) sz / 1024.0), reader, kind, sz, res); if (res.cpuRead >= 0) track("reader_cpu_us_per_byte", res.cpuRead * 1e6 / (double) sz, reader, kind, sz, res); track("total_cpu_us_per_byte", res.cpu * 1e6 / (double) sz, reader, kind, sz, res); }
+        if (sz >= 4096) { track("rss_kb_above_8MiB_per_input_kb", (double) std::max(0L, res.rssGrowKB - 8192) / ((double) sz / 1024.0), reader, kind, sz, res); if (res.cpuRead >= 0) track("reader_cpu_us_per_byte", res.cpuRead * 1e6 / (double) sz, reader, kind, sz, res); track("total_cpu_us_per_byte", res.cpu * 1e6 / (double) sz, reader, kind, sz, res); }
         track("rss_kb_abs", (double) res.rssGrowKB, reader, kind, sz, res); track("cpu_s_abs", res.cpu, reader, kind, sz, res);
     }
 
